@@ -28,8 +28,11 @@ def classify_oob(shape):
 def run(report: Report, tier, seed):
     report.trust("algosdk.abi (reference codec)", "spec/avm.py")
     report.assume("decode / element access Expr layer is checked per generated shape, value and position (bounded stand-in); "
-                  "_index_tuple offset arithmetic is proved against an independent ARC-4 position function for all type sequences and indices (pyvc)")
-    run_contracts(report, [("contracts.c06_layout", "ConsecutiveThingNum", "O6.14"), ("contracts.c06_layout", "BoolSequenceLength", "O6.13")])
+                  "_index_tuple is under contract (pyvc): for all type sequences and indices the returned decode expression addresses the bit / head / window the ARC-4 position function "
+                  "assigns to the element (callees _consecutive_bool_type_spec_num and _bool_sequence_length by their proved contracts); the decode() / decode_bit() / ExtractUint16 "
+                  "constructors are summarised as pure records; class facts: Bool instance <=> bool type spec, equal type specs agree on bool-ness / dynamic-ness / static length")
+    run_contracts(report, [("contracts.c06_layout", "ConsecutiveThingNum", "O6.14"), ("contracts.c06_layout", "BoolSequenceLength", "O6.13"),
+                           ("contracts.c07_index", "IndexTuple", "O7.1")])
     jobs = jobs_for(tier, seed + 1)
     res = A.pool_map(A.decode_case, jobs)
     ran = sum(r["ran"] for r in res)
@@ -50,6 +53,8 @@ def run(report: Report, tier, seed):
                                   bound=f"{len(jobs)} type shapes x every element position (constant and computed index) x out-of-range indices x versions 5..10 x both storage back-ends",
                                   cases=ran, distinct_nontrivial=len({j[0] for j in jobs}), failures=len(bad) + len(known)))
     report.extra["explanation"] = "P: _index_tuple offset arithmetic (pyvc); B: decode/element access against algosdk on generated shapes"
+    srch = lambda fn, obs: (bad[0] if bad else None) and {"input": {k: bad[0][k] for k in ("shape", "seed", "version", "in_sub")}, "problems": bad[0]["problems"][:2]}
+    report.settle_undecided(srch)
     report.settle_refuted(lambda fn, obs: (bad[0] if bad else None) and {"input": {k: bad[0][k] for k in ("shape", "seed", "version", "in_sub")}, "problems": bad[0]["problems"][:2]})
     for k, rec in known.items():
         report.violation(Violation(key=k, what=f"{rec['input']['shape']}: {rec['problem']['check']}: {rec['problem']['what']}"[:300],
